@@ -54,7 +54,25 @@ func runC05Temporal(r *simrt.Run, tier Tier) Outcome {
 	nowSec := int64(r.Choose(41, "c05t.now"))
 	nRules := 1 + r.Choose(4, "c05t.nrules")
 	for k := 0; k < nRules; k++ {
-		switch r.Choose(6, "c05t.rule") {
+		switch r.Choose(7, "c05t.rule") {
+		case 6: // recursion through a temporal head: every round must keep the head's interval
+			if !strings.Contains(strings.Join(decls, " "), "Decl link(") {
+				decls = append(decls, "Decl link(A, B) temporal.")
+				chain := []string{"/a", "/b", "/c", "/d", "/e", "/f"}[:3+r.Choose(4, "c05t.chain")]
+				lo := int64(r.Choose(20, "c05t.link.lo"))
+				i := c14Iv{lo, lo + 1 + int64(r.Choose(10, "c05t.link.len"))}
+				for j := 0; j+1 < len(chain); j++ {
+					li := i
+					if r.OneIn(5, "c05t.link.other") {
+						li = c14Iv{lo + 2, lo + 30}
+					}
+					clauses = append(clauses, fmt.Sprintf("link(%s, %s)%s.", chain[j], chain[j+1], li.ann()))
+				}
+			}
+			clauses = append(clauses,
+				fmt.Sprintf("reach%d(X, Y)@[S, E] :- link(X, Y)@[S, E].", k),
+				fmt.Sprintf("reach%d(X, Z)@[S, E] :- reach%d(X, Y)@[S, E], link(Y, Z)@[S, E].", k, k))
+			r.Probe("temporal-recursion")
 		case 0:
 			d1 := int64(r.Choose(6, "c05t.d1"))
 			d2 := d1 + int64(r.Choose(8, "c05t.d2"))
